@@ -104,7 +104,11 @@ type ClientSpec struct {
 	ParReq    bool
 	JarReq    bool
 	JWT       bool
-	Pairwise  bool
+	Pairwise  bool // the EFFECTIVE subject type (ctx.shouldGeneratePairwiseSub), which is what the model's c_pairwise is
+	// how the registration says it (not part of the model case): subject_type absent - the provider's
+	// default subject type decides - or "public" spelled out; otherwise "pairwise" is spelled out iff Pairwise
+	SubTypeAbsent bool `json:",omitempty"`
+	SubTypePublic bool `json:",omitempty"`
 	DpopReq   bool
 	TLSReq    bool
 	JarmAlg   bool
